@@ -1977,6 +1977,32 @@ func (c *Cache) additionalAnswer(ctx context.Context, msg *dns.Msg) *dns.Msg {
 			middleware.MarkRequestLocalFailureResponse(ctx, out, err)
 			return out
 		}
+		if err == nil && respCname != nil && respCname.Rcode == dns.RcodeServerFailure {
+			// The target leg of the chain failed: its servers were
+			// unreachable, or — under DNSSEC — what they said did not
+			// validate. The question was for the record at the end of the
+			// chain, and there is no answer to it; the alias alone is not
+			// one. Relaying it as a finished NOERROR reply (with the alias
+			// zone's AD on it) tells the client the name has no such record,
+			// which nobody established, and hides a bogus target behind an
+			// authenticated-looking answer (RFC 4035 §5.5: bogus data is
+			// answered with SERVFAIL). The DNAME path already hands up its
+			// target's SERVFAIL; the target's Extended DNS Error says why.
+			do := false
+			if opt := msg.IsEdns0(); opt != nil {
+				do = opt.Do()
+			}
+			if ede := dnsutil.GetEDE(respCname); ede != nil {
+				return dnsutil.SetRcodeWithEDE(
+					msg,
+					dns.RcodeServerFailure,
+					do,
+					ede.InfoCode,
+					ede.ExtraText,
+				)
+			}
+			return dnsutil.SetRcode(msg, dns.RcodeServerFailure, do)
+		}
 		if err == nil && (len(respCname.Answer) > 0 || len(respCname.Ns) > 0) {
 			target, child = searchAdditionalAnswer(msg, respCname)
 			// The sub-query's records are now part of the outer answer, so
